@@ -42,6 +42,17 @@ functions = [
      'sig': 'bool DecodeSymbols(uint32_t num_values, int num_components, struct DecoderBuffer *src_buffer, uint32_t *out_values)',
      'subst': [(r'src_buffer->Decode\(&scheme\)', 'DecoderBuffer_Decode_u8(src_buffer, &scheme)', 1),
                (r'DecodeTaggedSymbols<RAnsSymbolDecoder>\(', 'DecodeTaggedSymbols_stub(', 1), (r'DecodeRawSymbols<RAnsSymbolDecoder>\(', 'DecodeRawSymbols(', 1)]},
+    # the zero-run token of the probability table (body of `if (token == 3)` in Create's table loop) as a function of the loop state: the quick-tier
+    # cover of the one place in Create that writes a stream-controlled number of entries (the whole loop nest is Create.bounded, thorough tier)
+    {'name': 'RSD_Create_zero_run', 'file': E + 'rans_symbol_decoder.h',
+     'region': r'if \(token == 3\) \{\n(.*?i \+= offset;)\n\s*\} else \{', 'region_tail': 'return true;',
+     'sig': 'bool RSD_Create_zero_run(struct RSD *self, uint32_t *i_ref, uint8_t prob_data)',
+     'subst': [(r'(?<![\w>.])probability_table_\[', 'self->probability_table_.data[', 0), (r'probability_table_\.(?:begin\(\)|data\(\))', 'self->probability_table_.data', 0),
+               (r'(?<![\w.>])i\b(?!_ref)', '(*i_ref)', 0)],
+     'members': ['num_symbols_'],
+     'loops': {0: '__CPROVER_assigns(j, __CPROVER_object_whole(self->probability_table_.data))\n__CPROVER_loop_invariant(j <= offset + 1)\n'
+                  '__CPROVER_loop_invariant(ghost_sym >= self->num_symbols_ || self->probability_table_.data[ghost_sym] == ((ghost_sym >= (*i_ref) && ghost_sym < (*i_ref) + j) ? 0u : __CPROVER_loop_entry(self->probability_table_.data[ghost_sym < self->num_symbols_ ? ghost_sym : 0])))\n'
+                  '__CPROVER_decreases(offset + 1 - j)'}},
     # the two symbol loops, over a ghost symbol decoder (its Create / StartDecoding / DecodeSymbol are under contract above and in unit ans)
     {'name': 'DecodeRawSymbolsInternal', 'file': E + 'symbol_decoding.cc',
      'anchor': r'template <class SymbolDecoderT>\s*bool DecodeRawSymbolsInternal\(uint32_t num_values, DecoderBuffer \*src_buffer,\s*uint32_t \*out_values\)\s*\{',
@@ -97,6 +108,7 @@ J('Create.alloc_guard', 'h_rsd_create', ['C08', 'C18', 'C02'], defines=DEFS + ['
 J('Create.bounded', 'h_rsd_create', ['C08', 'C02'], defines=DEFS + ['-DCREATE_MAXBYTES=4'], unwind=66, solver='cadical',
   unwind_reason='bounded: at most 4 input bytes after the reader position (<= 3 table tokens, zero runs <= 64 symbols each); look-up table builder by contract',
   replace=['RAnsDecoder_rans_build_look_up_table'], timeout=3000, cost=8, cbmc=['--object-bits', '10'], tier='thorough')
+J('Create.zero_run.contract', 'h_enf_RSD_Create_zero_run', ['C08', 'C02', 'C18'], enforce='RSD_Create_zero_run', loops=True)
 J('DecodeRawSymbols.contract', 'h_enf_DecodeRawSymbols', ['C08', 'C05', 'C02'], enforce='DecodeRawSymbols', replace=['DecoderBuffer_Decode_u8', 'DecodeRawSymbolsInternal_b'], cbmc=['--object-bits', '10'])
 J('DecodeSymbols.contract', 'h_enf_DecodeSymbols', ['C08', 'C05', 'C02'], enforce='DecodeSymbols', replace=['DecoderBuffer_Decode_u8', 'DecodeRawSymbols', 'DecodeTaggedSymbols_stub'])
 J('StartDecoding', 'h_rsd_start', ['C08', 'C02', 'C18', 'C06'], ignore=[SHL24], unwind=14, unwind_reason='varint recursion <= 11 (uint64); no input-length loop; unwinding assertions on')
